@@ -887,7 +887,10 @@ func (w *Writer) appendTar(r io.Reader, lossless bool) error {
 	var src io.Reader
 	br := bufio.NewReader(r)
 	if isGzip(br) {
-		zr, _ := gzip.NewReader(br)
+		zr, err := gzip.NewReader(br)
+		if err != nil {
+			return fmt.Errorf("error reading from source tar: gzip: %w", err)
+		}
 		src = zr
 	} else {
 		src = io.Reader(br)
